@@ -218,6 +218,17 @@ func (f *filler) fill(v reflect.Value, depth int) {
 			return
 		}
 		n := 1 + f.src.Intn(3, "fill.len")
+		if f.src.Intn(10, "fill.large") == 9 {
+			// now and then a LARGE slice: pools commonly treat oversized objects
+			// differently (drop them, or skip the clean-up that small ones get)
+			n = []int{17, 65, 129, 300, 1100}[f.src.Intn(5, "fill.largelen")]
+			s := reflect.MakeSlice(v.Type(), n, n)
+			for i := 0; i < n; i++ {
+				f.fill(s.Index(i), 0)
+			}
+			v.Set(s)
+			return
+		}
 		s := reflect.MakeSlice(v.Type(), n, n+2)
 		for i := 0; i < n; i++ {
 			f.fill(s.Index(i), depth-1)
